@@ -17,16 +17,17 @@ import (
 // C02 — what a handler returns is what the caller receives (wire fidelity).
 
 type c02Case struct {
-	Kind  string // tool | prompt | resource | toolerr | prompterr | reserr | tooldesc | promptdesc | resdesc
-	Label string
-	Key   string // stable sub-key for known-finding matching (value class, not the mode)
-	Tool  func() *mcp.CallToolResult
-	Pr    func() *mcp.GetPromptResult
-	Res   func() []mcp.ResourceContents
-	Err   string
-	TDesc func() *mcp.Tool
-	PDesc func() *mcp.Prompt
-	RDesc func() *mcp.Resource
+	Kind         string // tool | prompt | resource | toolerr | prompterr | reserr | tooldesc | promptdesc | resdesc
+	Label        string
+	Key          string // stable sub-key for known-finding matching (value class, not the mode)
+	Tool         func() *mcp.CallToolResult
+	Pr           func() *mcp.GetPromptResult
+	Res          func() []mcp.ResourceContents
+	Err          string
+	TDesc        func() *mcp.Tool
+	PDesc        func() *mcp.Prompt
+	RDesc        func() *mcp.Resource
+	NoWireSchema bool // the handler's value is outside the MCP schema by the handler's own choice: only fidelity is judged
 }
 
 type strClass struct{ name, val string }
@@ -181,6 +182,19 @@ func c02Cases(tier string) []c02Case {
 			return r
 		}},
 		{"structured=typed-struct", func() *mcp.CallToolResult { r := base(); r.StructuredContent = typed{A: 7, B: []string{"x"}}; return r }},
+		{"structured=!array", func() *mcp.CallToolResult {
+			r := base()
+			r.StructuredContent = []interface{}{1, "x", map[string]interface{}{"k": true}}
+			return r
+		}},
+		{"structured=!typed-slice", func() *mcp.CallToolResult {
+			r := base()
+			r.StructuredContent = []typed{{A: 1}, {A: 2, B: []string{"y"}}}
+			return r
+		}},
+		{"structured=!string", func() *mcp.CallToolResult { r := base(); r.StructuredContent = "just a string"; return r }},
+		{"structured=!number", func() *mcp.CallToolResult { r := base(); r.StructuredContent = 3.5; return r }},
+		{"structured=!bool", func() *mcp.CallToolResult { r := base(); r.StructuredContent = true; return r }},
 		{"structured=protocol-keys", func() *mcp.CallToolResult {
 			r := base()
 			r.StructuredContent = map[string]interface{}{"error": map[string]interface{}{"code": 1, "message": "m"}, "result": "r", "id": 99, "jsonrpc": "1.0", "method": "m", "params": []interface{}{}, "content": "c", "isError": true}
@@ -201,7 +215,7 @@ func c02Cases(tier string) []c02Case {
 		{"nil-content-slice", func() *mcp.CallToolResult { return &mcp.CallToolResult{} }},
 	} {
 		v := v
-		out = append(out, c02Case{Kind: "tool", Label: v.name, Key: "variant:" + v.name, Tool: v.mk})
+		out = append(out, c02Case{Kind: "tool", Label: v.name, Key: "variant:" + v.name, Tool: v.mk, NoWireSchema: strings.Contains(v.name, "=!")})
 	}
 	// prompts
 	for n := 0; n <= 2; n++ {
@@ -525,7 +539,7 @@ func c02Eval(mode string, cs c02Case) CaseResult {
 			viol = append(viol, V(key("wire-garbage"), "%s", b))
 		}
 		method := map[string]string{"tool": "tools/call", "prompt": "prompts/get", "resource": "resources/read", "tooldesc": "tools/list", "promptdesc": "prompts/list", "resdesc": "resources/list"}[cs.Kind]
-		if method != "" && len(resps) > 0 {
+		if method != "" && len(resps) > 0 && !cs.NoWireSchema {
 			last := resps[len(resps)-1]
 			raw, _ := json.Marshal(map[string]json.RawMessage{"jsonrpc": json.RawMessage(`"2.0"`), "id": last.ID, "result": last.Result})
 			if len(last.Result) > 0 && len(raw) < 200000 {
